@@ -55,7 +55,71 @@ func convexHull(pts []vkit.P2) []vkit.P2 {
 
 // latticePolygon: shell around the core box [0,W]x[0,H] (convex hull or x-monotone staircase), holes = convex lattice
 // polygons in disjoint cells strictly inside the core. Offset ox shifts everything (multi-polygon members).
+// freeHullPolygon: shell = convex hull of 3-8 random points on a coarse lattice (multiples of 4: triangles, diamonds, ...
+// whose bounding-box extremes are single vertices), holes = convex polygons on the unit lattice placed anywhere - also
+// close to the shell's extreme vertices - and accepted when all their vertices are strictly inside the shell (exact
+// test; for a convex hole in a convex shell that means strictly inside) and their boxes are separated from each other.
+func freeHullPolygon(t *rapid.T, ox int) [][]vkit.P2 {
+	var shell []vkit.P2
+	for try := 0; try < 8 && len(shell) < 3; try++ {
+		n := rapid.IntRange(3, 8).Draw(t, "fhn")
+		var pts []vkit.P2
+		for i := 0; i < n; i++ {
+			pts = append(pts, ip(ox+4*rapid.IntRange(0, 10).Draw(t, "fhx"), 4*rapid.IntRange(0, 10).Draw(t, "fhy")))
+		}
+		shell = convexHull(pts)
+	}
+	if len(shell) < 3 {
+		shell = []vkit.P2{ip(ox, 0), ip(ox+40, 0), ip(ox+20, 40)}
+	}
+	rings := [][]vkit.P2{shell}
+	x0, y0, x1, y1 := 1<<30, 1<<30, -(1 << 30), -(1 << 30)
+	for _, p := range shell {
+		x0, y0 = min(x0, int(p[0])), min(y0, int(p[1]))
+		x1, y1 = max(x1, int(p[0])), max(y1, int(p[1]))
+	}
+	type box struct{ x0, y0, x1, y1 int }
+	var boxes []box
+	nh := rapid.IntRange(0, 3).Draw(t, "fhholes")
+	for h := 0; h < nh; h++ {
+		for try := 0; try < 6; try++ {
+			bx, by := rapid.IntRange(x0, x1).Draw(t, "hbx"), rapid.IntRange(y0, y1).Draw(t, "hby")
+			k := rapid.IntRange(3, 5).Draw(t, "hk")
+			var hp []vkit.P2
+			for i := 0; i < k; i++ {
+				hp = append(hp, ip(bx+rapid.IntRange(0, 5).Draw(t, "hdx"), by+rapid.IntRange(0, 5).Draw(t, "hdy")))
+			}
+			hull := convexHull(hp)
+			if len(hull) < 3 {
+				continue
+			}
+			ok := true
+			b := box{1 << 30, 1 << 30, -(1 << 30), -(1 << 30)}
+			for _, q := range hull {
+				if vkit.PIP(q, [][][]vkit.P2{{shell}}) != vkit.Inside {
+					ok = false
+				}
+				b.x0, b.y0, b.x1, b.y1 = min(b.x0, int(q[0])), min(b.y0, int(q[1])), max(b.x1, int(q[0])), max(b.y1, int(q[1]))
+			}
+			for _, o := range boxes {
+				if !(b.x1+1 < o.x0 || o.x1+1 < b.x0 || b.y1+1 < o.y0 || o.y1+1 < b.y0) {
+					ok = false
+				}
+			}
+			if ok {
+				rings = append(rings, hull)
+				boxes = append(boxes, b)
+				break
+			}
+		}
+	}
+	return rings
+}
+
 func latticePolygon(t *rapid.T, ox int) [][]vkit.P2 {
+	if rapid.IntRange(0, 2).Draw(t, "freehull") == 0 {
+		return freeHullPolygon(t, ox)
+	}
 	W, H := rapid.IntRange(6, 30).Draw(t, "W"), rapid.IntRange(6, 20).Draw(t, "H")
 	m := 6
 	var shell []vkit.P2
